@@ -120,6 +120,7 @@ type hookPage struct {
 }
 
 func (p *hookPage) PutUint64(value uint64, offset int) {
+	rinj.before(p.key, "put") // reset_race_test.go: stores of every small page, counted across pages
 	inj.before(p.key, "put", offset)
 	cinj.hit(p.key, "put")
 	p.MappedPage.PutUint64(value, offset)
@@ -131,6 +132,7 @@ func (p *hookPage) ReadUint64(offset int) uint64 {
 }
 
 func (p *hookPage) Sync() error {
+	rinj.before(p.key, "sync")
 	inj.before(p.key, "sync", -1)
 	return p.MappedPage.Sync()
 }
@@ -163,6 +165,7 @@ func uninstallPages() {
 	inj.disarm()
 	cinj.disarm()
 	pfault.disarm()
+	rinj.disarm()
 	queue.VerifSetPageFactory(nil)
 }
 
